@@ -1,6 +1,58 @@
-(* GoAstProofs5d.v — source ties for the ARMOR ENCODER STREAM (/repo/armor.go: armorEncoderStream.Write,
-   spaceAndOutputBuffer, Close), split off GoAstProofs5b.v (which keeps the base-X stream encoder); see the header
-   comment of GoAstProofs5b.v for the representation of writers and objects and for the full TARGET list. *)
+(* GoAstProofs5d.v - source ties for the ARMOR ENCODER STREAM of /repo/armor.go AFTER THE STICKY-ERROR FIX
+   (armorEncoderStream.Write, .spaceAndOutputBuffer, .Close as translated in gen/GoAstEnc.v from the fixed source),
+   split off GoAstProofs5b.v, which keeps the base-X stream encoder and is imported here.  The representation of the
+   underlying io.Writer ([wr], [g_wr], [wr_write], [run_calls]), of the base-X encoder object ([gobj], [g_obj]), the
+   fuel convention ([run2], every bound explicit) and the stepping tactics are those of GoAstProofs5b.v (see its header).
+   The entries of 5b's header about the armor stream describe the code BEFORE the fix; THIS header is the description of
+   the armor lemmas as they are now.
+
+   THE FIX.  armorEncoderStream had no sticky error: a failed Write had already taken a word off s.buf, and a later Close
+   returned nil for an armor that missed it (WriteFaultProofs.v, C14).  The fixed struct has a field `err error`;
+   Write and Close return s.err at once when it is set; every error return of Write (encoder.Write,
+   spaceAndOutputBuffer) and of Close (encoder.Close, spaceAndOutputBuffer, the Write of the last characters, the Fprintf
+   of the footer) stores the error in s.err first.  Consequence used throughout: AFTER EVERY Write OR Close, s.err IS THE
+   ERROR THAT CALL RETURNED (nil if it returned nil).
+
+   THE OBJECT.  [g_armor chars footer w encv k err] = VStruct [buf := the unread characters of the bytes.Buffer; footer;
+   encoded := g_wr w; encoder := encv; nWords := k; params := Armor62Params (15, 200, '.'); err := g_werr err], the fields
+   in the order of the declaration ([g_armor_fields]); err : option string is nil or an error value.
+
+   TARGETS (all Qed; closed under the global context).  W, C, SP : the meaning given to the three method calls
+   s.encoder.Write(b), s.encoder.Close(), s.spaceAndOutputBuffer() (section variables: ANY functions).
+   - go_spaceAndOutputBuffer_run   spaceAndOutputBuffer computes exactly [ga_space]: error, pending characters, word
+       count and writer, for every state, every schedule of the writer and every value of s.err, which it leaves alone.
+       Hypothesis: fuel >= 14 + len(chars)/15.  (nWords is a Go int; the evaluator's int does not wrap.)
+   - ga_space_model                ga_space against ae_space (calls = word, separator, ... [sp_calls]).  No hypothesis.
+   - go_armor_Write_glue           Write on an object with s.err = nil, for EVERY behaviour of its two callees: it returns
+       the encoder's count with the first error of the two, AND THAT ERROR IS STORED IN s.err of the receiver the callees
+       left (encoder.Write failed: the object with the new encoder and err := the error; spaceAndOutputBuffer failed:
+       the struct it left, err := its error; no failure: the struct it left, untouched).  Hypotheses: fuel >= 12; W's
+       result has the shape (n, error, encoder); SP's receiver result is a struct.
+   - go_armor_Write_sticky         with s.err = x set: Write returns (0, x), calls neither W nor SP (no hypothesis on
+       them) and leaves the object as it was.  Hypothesis: fuel >= 12.
+   - go_armor_Close_glue           Close on an object with s.err = nil, for every behaviour of the callees, and after the
+       two calls one Write of the remaining characters, then one Fprintf of padding + ". " + footer + ".\n"
+       ([ga_close_tail]), every schedule: the error returned - whichever of the four places it comes from - is stored in
+       s.err; if Close returns nil s.err is what SP left.  Hypotheses: fuel >= 20; shapes of the callee results.
+   - go_armor_Close_sticky         with s.err = x set: Close returns x, calls nothing, writes nothing (NO footer) and
+       leaves the object as it was.  Hypothesis: fuel >= 20.
+   - ga_close_tail_model           the two final writes are the tail of ae_close.  No hypothesis.
+   - ga_write / ga_close           the specification functions of Write / Close with the shared bytes.Buffer made explicit,
+       now with the sticky error as an argument; s.err afterwards = the returned error.  ga_close now also gives the object
+       it leaves (so that calls after a Close can be followed).  ga_write_sticky / ga_close_sticky: with err = Some x
+       they return x (count 0) and the state unchanged (by computation).
+   - ga_write_model, ga_close_model   for a stream WITHOUT stored error (err = None) the behaviour is what it was: against
+       ae_write / ae_close, bytes written in order up to the first failure, count, new ae_state.  Hypotheses:
+       gobj_ok base62 128, e.err = nil, the encoder's own writer (the bytes.Buffer) never fails.
+   - go_armor_Write_aliased, go_armor_Close_aliased   the translated Write / Close on an object with s.err = nil compute
+       ga_write / ga_close (the whole receiver object afterwards, INCLUDING s.err := the returned error) and agree with
+       ae_write / ae_close, WHEN the method calls are read as: s.encoder.Write / Close = the base-X methods of 5b (trailing
+       copy performed), s.spaceAndOutputBuffer = the translated method run after the encoder's output has appeared in
+       s.buf, leaving s.err alone (go_spaceAndOutputBuffer_run).  These readings are hypotheses (they state the sharing of
+       the bytes.Buffer, which the evaluator cannot express - item 2 of NOT EXPRESSIBLE in 5b's header, unchanged).
+   OUTSIDE: a Close that returned nil leaves s.err = nil, so a SECOND Close after a successful one runs again (it writes
+   the last characters and the footer a second time); the fix does not address that and no lemma here is about it.
+   Meaning of the externs: as in 5b's header ("Buffer.Len/Next/Bytes", "fmt.Fprintf" = ONE Write of the formatted text). *)
 From Coq Require Import List String NArith ZArith Bool Lia.
 From Coq.Strings Require Import Byte.
 From SP Require Import Bytes Consts Params Errors BaseX Encodings Armor Streams StreamProofs GoLang GoLang2 GoAst GoAstProofs GoAstProofs2 GoAstProofs3.
@@ -43,9 +95,17 @@ Fixpoint ga_space (fuel : nat) (chars : bytes) (k : N) (w : wr) : option string 
 (* the armorEncoderStream object; Armor62Params *)
 Definition g_params : gval :=
   VStruct [("BytesPerWord", VInt 15); ("WordsPerLine", VInt 200); ("Punctuation", VInt 46); ("Encoding", VNil)].
-Definition g_armor (chars footer : bytes) (w : wr) (encv : gval) (k : N) : gval :=
-  VStruct [("buf", VBytes chars); ("footer", VBytes footer); ("encoded", g_wr w); ("encoder", encv);
-           ("nWords", VInt (Z.of_N k)); ("params", g_params)].
+(* the fields, in the order of the struct declaration; err (the sticky error added by the fix of /repo/armor.go) is nil or
+   an error value *)
+Definition g_armor_fields (chars footer : bytes) (w : wr) (encv : gval) (k : N) (err : option string) : list (string * gval) :=
+  [("buf", VBytes chars); ("footer", VBytes footer); ("encoded", g_wr w); ("encoder", encv);
+   ("nWords", VInt (Z.of_N k)); ("params", g_params); ("err", g_werr err)].
+Definition g_armor (chars footer : bytes) (w : wr) (encv : gval) (k : N) (err : option string) : gval :=
+  VStruct (g_armor_fields chars footer w encv k err).
+(* `s.err = e` on an armor object *)
+Lemma g_armor_set_err (chars footer : bytes) (w : wr) (encv : gval) (k : N) (err err' : option string) :
+  set_field (g_armor_fields chars footer w encv k err) "err" (g_werr err') = g_armor_fields chars footer w encv k err'.
+Proof. reflexivity. Qed.
 
 Definition byte_of_Z (z : Z) : byte := match Byte.of_N (Z.to_N z) with Some c => c | None => x00 end.
 
@@ -107,8 +167,8 @@ Definition sp_for : gstmt := Eval cbv in nth 0 (f_body f_saltpack_armorEncoderSt
 Definition sp_cond : gexpr := Eval cbv in match sp_for with SFor c _ => c | _ => ENil end.
 Definition sp_body : list gstmt := Eval cbv in match sp_for with SFor _ b => b | _ => [] end.
 
-Definition env_sp (chars footer : bytes) (w : wr) (encv : gval) (k : N) (tl : option (bytes * Z)) : env :=
-  ("s", g_armor chars footer w encv k) ::
+Definition env_sp (chars footer : bytes) (w : wr) (encv : gval) (k : N) (err : option string) (tl : option (bytes * Z)) : env :=
+  ("s", g_armor chars footer w encv k err) ::
   match tl with
   | None => []
   | Some (b0, z0) => [("buf", VBytes b0); ("sep", VInt z0); ("err", VNil)]
@@ -144,19 +204,19 @@ Variable W : gval -> bytes -> option (list gval).
 Variable C : gval -> option (list gval).
 Variable SP : gval -> option (list gval).
 
-Lemma space_loop (footer : bytes) (encv : gval) (f : nat) :
+Lemma space_loop (footer : bytes) (encv : gval) (err : option string) (f : nat) :
   forall (n : nat) (chars : bytes) (k : N) (w : wr) (tl : option (bytes * Z)),
   List.length chars / 15 < n ->
   let '(er, chars', k', w') := ga_space n chars k w in
   exists env',
-    for_loop2 (ext_ae W C SP) (S10 f) sp_cond sp_body [SReturn [ENil]] n (env_sp chars footer w encv k tl)
+    for_loop2 (ext_ae W C SP) (S10 f) sp_cond sp_body [SReturn [ENil]] n (env_sp chars footer w encv k err tl)
     = CRet [g_werr er] env' /\
-    lookup "s" env' = Some (g_armor chars' footer w' encv k').
+    lookup "s" env' = Some (g_armor chars' footer w' encv k' err).
 Proof.
   induction n as [|n IH]; intros chars k w tl Hn; [inversion Hn|].
   cbn [ga_space].
   destruct w as [log sched].
-  unfold sp_cond, sp_body, env_sp, g_armor, g_params, g_wr. cbn [w_log w_sched].
+  unfold sp_cond, sp_body, env_sp, g_armor, g_armor_fields, g_params, g_wr. cbn [w_log w_sched].
   match goal with
   | |- context [for_loop2 ?x ?ff ?c ?b ?r ?n0 ?e0] => remember (for_loop2 x ff c b r n0 e0) as R eqn:HR
   end.
@@ -171,25 +231,25 @@ Proof.
     let wd := firstn 15 chars in
     let (e1, w1) := wr_write (mkWr log sched) wd in
     match e1 with
-    | Some x => exists env', R = CRet [VErr x []] env' /\ lookup "s" env' = Some (g_armor (skipn 15 chars) footer w1 encv (k + 1))
+    | Some x => exists env', R = CRet [VErr x []] env' /\ lookup "s" env' = Some (g_armor (skipn 15 chars) footer w1 encv (k + 1) err)
     | None =>
       let (e2, w2) := wr_write w1 [sep] in
       match e2 with
-      | Some x => exists env', R = CRet [VErr x []] env' /\ lookup "s" env' = Some (g_armor (skipn 15 chars) footer w2 encv (k + 1))
+      | Some x => exists env', R = CRet [VErr x []] env' /\ lookup "s" env' = Some (g_armor (skipn 15 chars) footer w2 encv (k + 1) err)
       | None => exists z0, for_loop2 (ext_ae W C SP) (S10 f) sp_cond sp_body [SReturn [ENil]] n
-                             (env_sp (skipn 15 chars) footer w2 encv (k + 1) (Some (wd, z0))) = R
+                             (env_sp (skipn 15 chars) footer w2 encv (k + 1) err (Some (wd, z0))) = R
       end
     end).
   { intros sep Hsep. cbv zeta.
     destruct ((k + 1) mod 200 =? 0)%N eqn:Emod; subst sep;
     destruct tl as [[b0 z0]|]; run_hyp5 (ext_ae W C SP) HR; rewrite Hk1 in HR; run_hyp5 (ext_ae W C SP) HR;
     (destruct sched as [|[x|] sched]; hr_simpl HR; run_hyp5 (ext_ae W C SP) HR; cbn [wr_write w_sched w_log];
-     [ eexists; unfold sp_cond, sp_body, env_sp, g_armor, g_params, g_wr; cbn [w_log w_sched]; rewrite !map_app; exact HR
-     | subst R; eexists; split; [reflexivity|]; unfold g_armor, g_params, g_wr; cbn [w_log w_sched]; rewrite map_app; reflexivity
+     [ eexists; unfold sp_cond, sp_body, env_sp, g_armor, g_armor_fields, g_params, g_wr; cbn [w_log w_sched]; rewrite !map_app; exact HR
+     | subst R; eexists; split; [reflexivity|]; unfold g_armor, g_armor_fields, g_params, g_wr; cbn [w_log w_sched]; rewrite map_app; reflexivity
      | destruct sched as [|[y|] sched]; hr_simpl HR; run_hyp5 (ext_ae W C SP) HR; cbn [wr_write w_sched w_log];
-       [ eexists; unfold sp_cond, sp_body, env_sp, g_armor, g_params, g_wr; cbn [w_log w_sched]; rewrite !map_app; exact HR
-       | subst R; eexists; split; [reflexivity|]; unfold g_armor, g_params, g_wr; cbn [w_log w_sched]; rewrite !map_app; reflexivity
-       | eexists; unfold sp_cond, sp_body, env_sp, g_armor, g_params, g_wr; cbn [w_log w_sched]; rewrite !map_app; exact HR ] ]). }
+       [ eexists; unfold sp_cond, sp_body, env_sp, g_armor, g_armor_fields, g_params, g_wr; cbn [w_log w_sched]; rewrite !map_app; exact HR
+       | subst R; eexists; split; [reflexivity|]; unfold g_armor, g_armor_fields, g_params, g_wr; cbn [w_log w_sched]; rewrite !map_app; reflexivity
+       | eexists; unfold sp_cond, sp_body, env_sp, g_armor, g_armor_fields, g_params, g_wr; cbn [w_log w_sched]; rewrite !map_app; exact HR ] ]). }
   clear HR.
   specialize (Hstep _ eq_refl). cbv zeta in Hstep.
   replace (Nat.ltb 15 (List.length chars)) with true by (symmetry; apply Nat.ltb_lt; exact Elen).
@@ -204,11 +264,11 @@ Proof.
   rewrite Hs in IH. apply IH. rewrite skipn_length. lia.
 Qed.
 (* (TARGET) *)
-Lemma go_spaceAndOutputBuffer_run (chars footer : bytes) (w : wr) (encv : gval) (k : N) (F : nat) :
+Lemma go_spaceAndOutputBuffer_run (chars footer : bytes) (w : wr) (encv : gval) (k : N) (err : option string) (F : nat) :
   14 + List.length chars / 15 <= F ->
-  let r := run2 (ext_ae W C SP) F f_saltpack_armorEncoderStream_spaceAndOutputBuffer [g_armor chars footer w encv k] in
+  let r := run2 (ext_ae W C SP) F f_saltpack_armorEncoderStream_spaceAndOutputBuffer [g_armor chars footer w encv k err] in
   let '(er, chars', k', w') := ga_space (S (List.length chars / 15)) chars k w in
-  fst r = ORet [g_werr er] /\ lookup "s" (snd r) = Some (g_armor chars' footer w' encv k').
+  fst r = ORet [g_werr er] /\ lookup "s" (snd r) = Some (g_armor chars' footer w' encv k' err).
 Proof.
   intros HF. remember (List.length chars / 15) as q eqn:Hq.
   do 14 (destruct F as [|F]; [lia|]).
@@ -216,7 +276,7 @@ Proof.
   name_run R HR. rewrite exec2_for in HR.
   lazymatch type of HR with
   | for_loop2 _ (S (S (S (S (S (S (S (S (S (S ?f0)))))))))) _ _ _ ?n0 _ = _ =>
-    pose proof (space_loop footer encv f0 n0 chars k w None ltac:(lia)) as HL
+    pose proof (space_loop footer encv err f0 n0 chars k w None ltac:(lia)) as HL
   end.
   (* the spec does not depend on the fuel beyond the number of words *)
   assert (Hirr : forall n1 n2 c k0 w0, List.length c / 15 < n1 -> List.length c / 15 < n2 -> ga_space n1 c k0 w0 = ga_space n2 c k0 w0).
@@ -233,19 +293,27 @@ Proof.
   clear HR. subst R. cbn [fst snd]. split; [reflexivity|exact H1].
 Qed.
 
-(* (TARGET) Write: for EVERY behaviour of the two callees *)
-Lemma go_armor_Write_glue (chars footer b : bytes) (w : wr) (encv encv' s2 : gval) (k : N) (n : Z) (e1 e2 : option string) (F : nat) :
+(* (TARGET) Write, s.err = nil: for EVERY behaviour of the two callees.  The first error of the two is returned AND
+   stored in s.err (on whatever struct the callee left as the receiver) *)
+Lemma go_armor_Write_glue (chars footer b : bytes) (w : wr) (encv encv' : gval) (fs2 : list (string * gval)) (k : N) (n : Z)
+      (e1 e2 : option string) (F : nat) :
   12 <= F ->
   W encv b = Some [VInt n; g_werr e1; encv'] ->
-  (e1 = None -> SP (g_armor chars footer w encv' k) = Some [g_werr e2; s2]) ->
-  let r := run2 (ext_ae W C SP) F f_saltpack_armorEncoderStream_Write [g_armor chars footer w encv k; VBytes b] in
+  (e1 = None -> SP (g_armor chars footer w encv' k None) = Some [g_werr e2; VStruct fs2]) ->
+  let r := run2 (ext_ae W C SP) F f_saltpack_armorEncoderStream_Write [g_armor chars footer w encv k None; VBytes b] in
   fst r = ORet [VInt n; g_werr (match e1 with Some x => Some x | None => e2 end)] /\
-  lookup "s" (snd r) = Some (match e1 with Some _ => g_armor chars footer w encv' k | None => s2 end).
+  lookup "s" (snd r) = Some (match e1 with
+                             | Some x => g_armor chars footer w encv' k (Some x)
+                             | None => match e2 with
+                                       | Some y => VStruct (set_field fs2 "err" (VErr y []))
+                                       | None => VStruct fs2
+                                       end
+                             end).
 Proof.
   intros HF HW HSP. do 12 (destruct F as [|F]; [lia|]).
   destruct w as [log sched].
   cbv zeta. start5 f_saltpack_armorEncoderStream_Write.
-  unfold g_armor, g_params, g_wr in *. cbn [w_log w_sched] in *.
+  unfold g_armor, g_armor_fields, g_params, g_wr in *. cbn [w_log w_sched] in *. rewrite g_werr_none in *.
   name_run R HR. run_hyp5 (ext_ae W C SP) HR.
   destruct e1 as [x|].
   - rewrite g_werr_some in *. run_hyp5 (ext_ae W C SP) HR. subst R. cbn. split; reflexivity.
@@ -254,28 +322,44 @@ Proof.
       run_hyp5 (ext_ae W C SP) HR; subst R; cbn; split; reflexivity.
 Qed.
 
-(* (TARGET) Close: for EVERY behaviour of the two callees *)
+(* (TARGET) the sticky error: with s.err set, Write returns (0, s.err), calls nothing and changes nothing *)
+Lemma go_armor_Write_sticky (chars footer b : bytes) (w : wr) (encv : gval) (k : N) (x : string) (F : nat) :
+  12 <= F ->
+  let r := run2 (ext_ae W C SP) F f_saltpack_armorEncoderStream_Write [g_armor chars footer w encv k (Some x); VBytes b] in
+  fst r = ORet [VInt 0; VErr x []] /\ lookup "s" (snd r) = Some (g_armor chars footer w encv k (Some x)).
+Proof.
+  intros HF. do 12 (destruct F as [|F]; [lia|]).
+  destruct w as [log sched].
+  cbv zeta. start5 f_saltpack_armorEncoderStream_Write.
+  unfold g_armor, g_armor_fields, g_params, g_wr in *. cbn [w_log w_sched] in *. rewrite g_werr_some in *.
+  name_run R HR. run_hyp5 (ext_ae W C SP) HR. subst R. cbn. split; reflexivity.
+Qed.
+
+(* (TARGET) Close, s.err = nil: for EVERY behaviour of the two callees.  The error Close returns - from either callee or
+   from one of its own two writes - is stored in s.err first (err2 is whatever spaceAndOutputBuffer left there; it
+   survives only when Close returns nil) *)
 Lemma go_armor_Close_glue (chars footer : bytes) (w : wr) (encv encv' : gval) (k : N) (e1 e2 : option string)
-      (chars2 footer2 : bytes) (w2 : wr) (encv2 : gval) (k2 : N) (F : nat) :
+      (chars2 footer2 : bytes) (w2 : wr) (encv2 : gval) (k2 : N) (err2 : option string) (F : nat) :
   20 <= F ->
   C encv = Some [g_werr e1; encv'] ->
-  (e1 = None -> SP (g_armor chars footer w encv' k) = Some [g_werr e2; g_armor chars2 footer2 w2 encv2 k2]) ->
-  let r := run2 (ext_ae W C SP) F f_saltpack_armorEncoderStream_Close [g_armor chars footer w encv k] in
+  (e1 = None -> SP (g_armor chars footer w encv' k None) = Some [g_werr e2; g_armor chars2 footer2 w2 encv2 k2 err2]) ->
+  let r := run2 (ext_ae W C SP) F f_saltpack_armorEncoderStream_Close [g_armor chars footer w encv k None] in
   match e1 with
-  | Some x => fst r = ORet [VErr x []] /\ lookup "s" (snd r) = Some (g_armor chars footer w encv' k)
+  | Some x => fst r = ORet [VErr x []] /\ lookup "s" (snd r) = Some (g_armor chars footer w encv' k (Some x))
   | None =>
     match e2 with
-    | Some y => fst r = ORet [VErr y []] /\ lookup "s" (snd r) = Some (g_armor chars2 footer2 w2 encv2 k2)
+    | Some y => fst r = ORet [VErr y []] /\ lookup "s" (snd r) = Some (g_armor chars2 footer2 w2 encv2 k2 (Some y))
     | None =>
       let '(e, w4, k4) := ga_close_tail chars2 footer2 w2 k2 in
-      fst r = ORet [g_werr e] /\ lookup "s" (snd r) = Some (g_armor chars2 footer2 w4 encv2 k4)
+      fst r = ORet [g_werr e] /\
+      lookup "s" (snd r) = Some (g_armor chars2 footer2 w4 encv2 k4 (match e with Some z => Some z | None => err2 end))
     end
   end.
 Proof.
   intros HF HC HSP. do 20 (destruct F as [|F]; [lia|]).
   destruct w as [log sched]. destruct w2 as [log2 sched2].
   cbv zeta. start5 f_saltpack_armorEncoderStream_Close.
-  unfold ga_close_tail, g_armor, g_params, g_wr in *. cbn [w_log w_sched] in *.
+  unfold ga_close_tail, g_armor, g_armor_fields, g_params, g_wr in *. cbn [w_log w_sched] in *. rewrite g_werr_none in *.
   name_run R HR. run_hyp5 (ext_ae W C SP) HR.
   destruct e1 as [x|].
   { rewrite g_werr_some in *. run_hyp5 (ext_ae W C SP) HR. subst R. cbn. split; reflexivity. }
@@ -294,6 +378,19 @@ Proof.
   all: try (subst R; cbn [fst snd lookup String.eqb Ascii.eqb Bool.eqb wr_write w_sched w_log g_werr]; rewrite !map_app; split; reflexivity).
   all: destruct sched2 as [|[y|] sched2]; hr_simpl HR; run_hyp5 (ext_ae W C SP) HR; cbn [wr_write w_sched w_log];
        subst R; cbn [fst snd lookup String.eqb Ascii.eqb Bool.eqb wr_write w_sched w_log g_werr]; rewrite !map_app; split; reflexivity.
+Qed.
+
+(* (TARGET) the sticky error: with s.err set, Close returns s.err, calls nothing and changes nothing (no footer is written) *)
+Lemma go_armor_Close_sticky (chars footer : bytes) (w : wr) (encv : gval) (k : N) (x : string) (F : nat) :
+  20 <= F ->
+  let r := run2 (ext_ae W C SP) F f_saltpack_armorEncoderStream_Close [g_armor chars footer w encv k (Some x)] in
+  fst r = ORet [VErr x []] /\ lookup "s" (snd r) = Some (g_armor chars footer w encv k (Some x)).
+Proof.
+  intros HF. do 20 (destruct F as [|F]; [lia|]).
+  destruct w as [log sched].
+  cbv zeta. start5 f_saltpack_armorEncoderStream_Close.
+  unfold g_armor, g_armor_fields, g_params, g_wr in *. cbn [w_log w_sched] in *. rewrite g_werr_some in *.
+  name_run R HR. run_hyp5 (ext_ae W C SP) HR. subst R. cbn. split; reflexivity.
 Qed.
 
 End ArmorProofs.
@@ -395,30 +492,55 @@ Qed.
    to the pending characters ([drain]) before spaceAndOutputBuffer looks at them. *)
 Definition drained (o : gobj) : gobj := mkGo (go_err o) (go_buf o) (go_nbuf o) (go_out o) (mkWr [] []).
 
-Definition ga_write (o : gobj) (chars : bytes) (k : N) (w : wr) (p : bytes)
+(* Write on the stream whose sticky error s.err is [err]: (count, returned error, encoder object, pending characters,
+   words, writer).  THE ERROR STORED IN s.err AFTERWARDS IS THE RETURNED ONE: with s.err set Write returns (0, s.err) and
+   touches nothing; otherwise the error of encoder.Write / spaceAndOutputBuffer, if any, is stored before it is returned,
+   and a Write that returns nil leaves s.err = nil (go_armor_Write_aliased / go_armor_Write_sticky state the object) *)
+Definition ga_write (o : gobj) (chars : bytes) (k : N) (w : wr) (err : option string) (p : bytes)
   : nat * option string * gobj * bytes * N * wr :=
-  let '(n, e1, o', p') := gw_write base62 128 o p in
-  let o1 := pending_copy o' p' in
-  match e1 with
-  | Some x => (n, Some x, o1, chars, k, w)
+  match err with
+  | Some x => (0, Some x, o, chars, k, w)
   | None =>
-    let chars1 := chars ++ List.concat (w_log (go_w o1)) in
-    let '(er, chars', k', w') := ga_space (S (List.length chars1 / 15)) chars1 k w in
-    (n, er, drained o1, chars', k', w')
-  end.
-
-Definition ga_close (o : gobj) (chars : bytes) (k : N) (w : wr) (footer : bytes) : option string * wr :=
-  let (e1, o') := gw_close base62 o in
-  match e1 with
-  | Some x => (Some x, w)
-  | None =>
-    let chars1 := chars ++ List.concat (w_log (go_w o')) in
-    let '(er, chars', k', w') := ga_space (S (List.length chars1 / 15)) chars1 k w in
-    match er with
-    | Some x => (Some x, w')
-    | None => let '(e, w4, _) := ga_close_tail chars' footer w' k' in (e, w4)
+    let '(n, e1, o', p') := gw_write base62 128 o p in
+    let o1 := pending_copy o' p' in
+    match e1 with
+    | Some x => (n, Some x, o1, chars, k, w)
+    | None =>
+      let chars1 := chars ++ List.concat (w_log (go_w o1)) in
+      let '(er, chars', k', w') := ga_space (S (List.length chars1 / 15)) chars1 k w in
+      (n, er, drained o1, chars', k', w')
     end
   end.
+
+(* Close: (returned error, encoder object, pending characters, words, writer).  As for Write, THE ERROR STORED IN s.err
+   AFTERWARDS IS THE RETURNED ONE: with s.err set it is returned and nothing is touched; otherwise an error of
+   encoder.Close, of spaceAndOutputBuffer or of one of the two final writes is stored before it is returned.
+   (s.buf.Bytes() does not consume: the last characters stay in s.buf.) *)
+Definition ga_close (o : gobj) (chars : bytes) (k : N) (w : wr) (err : option string) (footer : bytes)
+  : option string * gobj * bytes * N * wr :=
+  match err with
+  | Some x => (Some x, o, chars, k, w)
+  | None =>
+    let (e1, o') := gw_close base62 o in
+    match e1 with
+    | Some x => (Some x, o', chars, k, w)
+    | None =>
+      let chars1 := chars ++ List.concat (w_log (go_w o')) in
+      let '(er, chars', k', w') := ga_space (S (List.length chars1 / 15)) chars1 k w in
+      match er with
+      | Some x => (Some x, drained o', chars', k', w')
+      | None => let '(e, w4, k4) := ga_close_tail chars' footer w' k' in (e, drained o', chars', k4, w4)
+      end
+    end
+  end.
+
+(* (TARGET) the sticky error, on the specification functions *)
+Lemma ga_write_sticky (o : gobj) (chars : bytes) (k : N) (w : wr) (x : string) (p : bytes) :
+  ga_write o chars k w (Some x) p = (0, Some x, o, chars, k, w).
+Proof. reflexivity. Qed.
+Lemma ga_close_sticky (o : gobj) (chars : bytes) (k : N) (w : wr) (x : string) (footer : bytes) :
+  ga_close o chars k w (Some x) footer = (Some x, o, chars, k, w).
+Proof. reflexivity. Qed.
 
 Lemma run_calls_nofail (calls : list bytes) : forall l, run_calls calls (mkWr l []) = (List.length calls, None, mkWr (l ++ calls) []).
 Proof.
@@ -459,7 +581,7 @@ Theorem ga_write_model (o : gobj) (chars : bytes) (k : N) (w : wr) (p : bytes) :
   gobj_ok base62 128 o -> go_err o = None -> go_w o = mkWr [] [] ->
   let st := mkAe (firstn (go_nbuf o) (go_buf o)) chars k in
   let (out, st') := ae_write st p in
-  let '(n, er, o2, chars', k', w') := ga_write o chars k w p in
+  let '(n, er, o2, chars', k', w') := ga_write o chars k w None p in
   n = List.length p /\ gobj_ok base62 128 o2 /\ go_err o2 = None /\ go_w o2 = mkWr [] [] /\
   firstn (go_nbuf o2) (go_buf o2) = ae_bx st' /\
   exists (calls : list bytes) (j : nat),
@@ -497,7 +619,7 @@ Qed.
 Theorem ga_close_model (o : gobj) (chars : bytes) (k : N) (w : wr) (footer : bytes) :
   gobj_ok base62 128 o -> go_err o = None -> go_w o = mkWr [] [] ->
   let st := mkAe (firstn (go_nbuf o) (go_buf o)) chars k in
-  let (e, w4) := ga_close o chars k w footer in
+  let '(e, o2, chars2, k2, w4) := ga_close o chars k w None footer in
   exists (calls : list bytes) (j : nat),
     List.concat calls = ae_close st footer /\ run_calls calls w = (j, e, w4).
 Proof.
@@ -535,7 +657,7 @@ Variable W : gval -> bytes -> option (list gval).
 Variable C : gval -> option (list gval).
 Variable SP : gval -> option (list gval).
 
-(* (TARGET) *)
+(* (TARGET) s.err = nil *)
 Theorem go_armor_Write_aliased (o : gobj) (chars footer : bytes) (k : N) (w : wr) (p : bytes) (F : nat) :
   12 <= F -> gobj_ok base62 128 o -> go_err o = None -> go_w o = mkWr [] [] ->
   (* s.encoder.Write(p) means the base-X encoder's Write (go_encoder_Write), its trailing copy performed *)
@@ -546,13 +668,16 @@ Theorem go_armor_Write_aliased (o : gobj) (chars footer : bytes) (k : N) (w : wr
   (forall o1 : gobj,
    let chars1 := chars ++ List.concat (w_log (go_w o1)) in
    let '(er, chars', k', w') := ga_space (S (List.length chars1 / 15)) chars1 k w in
-   SP (g_armor chars footer w (g_obj base62 o1) k) = Some [g_werr er; g_armor chars' footer w' (g_obj base62 (drained o1)) k']) ->
-  let r := run2 (ext_ae W C SP) F f_saltpack_armorEncoderStream_Write [g_armor chars footer w (g_obj base62 o) k; VBytes p] in
+   SP (g_armor chars footer w (g_obj base62 o1) k None)
+   = Some [g_werr er; g_armor chars' footer w' (g_obj base62 (drained o1)) k' None]) ->
+  let r := run2 (ext_ae W C SP) F f_saltpack_armorEncoderStream_Write [g_armor chars footer w (g_obj base62 o) k None; VBytes p] in
   let st := mkAe (firstn (go_nbuf o) (go_buf o)) chars k in
   let (out, st') := ae_write st p in
   exists (er : option string) (o2 : gobj) (chars' : bytes) (k' : N) (w' : wr),
+    ga_write o chars k w None p = (List.length p, er, o2, chars', k', w') /\
     fst r = ORet [VInt (Z.of_nat (List.length p)); g_werr er] /\
-    lookup "s" (snd r) = Some (g_armor chars' footer w' (g_obj base62 o2) k') /\
+    (* the returned error is stored in s.err *)
+    lookup "s" (snd r) = Some (g_armor chars' footer w' (g_obj base62 o2) k' er) /\
     gobj_ok base62 128 o2 /\ go_err o2 = None /\ go_w o2 = mkWr [] [] /\
     firstn (go_nbuf o2) (go_buf o2) = ae_bx st' /\
     exists (calls : list bytes) (j : nat),
@@ -562,7 +687,7 @@ Proof.
   intros HF Hok Herr Hw HW HSP. cbv zeta.
   pose proof (ga_write_model o chars k w p Hok Herr Hw) as HM. cbv zeta in HM.
   destruct (ae_write (mkAe (firstn (go_nbuf o) (go_buf o)) chars k) p) as [out st'].
-  unfold ga_write in HM.
+  unfold ga_write in HM |- *.
   pose proof (gw_write_model base62 128 ltac:(rewrite ibl62_nat; lia) ltac:(lia) o p Hok Herr) as HE. cbv zeta in HE.
   destruct (bxe_write base62 (firstn (go_nbuf o) (go_buf o)) p) as [ws mb'].
   rewrite Hw, run_calls_nofail in HE.
@@ -572,31 +697,36 @@ Proof.
   destruct (ga_space _ _ k w) as [[[er chars'] k'] w'].
   destruct HM as (M1 & M2 & M3 & M4 & M5 & M6).
   pose proof (go_armor_Write_glue W C SP chars footer p w (g_obj base62 o) (g_obj base62 (pending_copy o' p'))
-                (g_armor chars' footer w' (g_obj base62 (drained (pending_copy o' p'))) k') k (Z.of_nat n) None er F HF HW
+                (g_armor_fields chars' footer w' (g_obj base62 (drained (pending_copy o' p'))) k' None) k (Z.of_nat n) None er F HF HW
                 (fun _ => HSP)) as HG.
   cbv zeta in HG. destruct HG as [G1 G2].
   exists er, (drained (pending_copy o' p')), chars', k', w'.
-  rewrite <- M1. split; [exact G1|]. split; [exact G2|]. split; [exact M2|]. split; [exact M3|]. split; [exact M4|]. split; [exact M5|exact M6].
+  rewrite <- M1. split; [reflexivity|]. split; [exact G1|].
+  split; [rewrite G2; destruct er as [y|]; reflexivity|].
+  split; [exact M2|]. split; [exact M3|]. split; [exact M4|]. split; [exact M5|exact M6].
 Qed.
 
-(* (TARGET) *)
+(* (TARGET) s.err = nil *)
 Theorem go_armor_Close_aliased (o : gobj) (chars footer : bytes) (k : N) (w : wr) (F : nat) :
   20 <= F -> gobj_ok base62 128 o -> go_err o = None -> go_w o = mkWr [] [] ->
   (let (e1, o') := gw_close base62 o in C (g_obj base62 o) = Some [g_werr e1; g_obj base62 o']) ->
   (forall o1 : gobj,
    let chars1 := chars ++ List.concat (w_log (go_w o1)) in
    let '(er, chars', k', w') := ga_space (S (List.length chars1 / 15)) chars1 k w in
-   SP (g_armor chars footer w (g_obj base62 o1) k) = Some [g_werr er; g_armor chars' footer w' (g_obj base62 (drained o1)) k']) ->
-  let r := run2 (ext_ae W C SP) F f_saltpack_armorEncoderStream_Close [g_armor chars footer w (g_obj base62 o) k] in
+   SP (g_armor chars footer w (g_obj base62 o1) k None)
+   = Some [g_werr er; g_armor chars' footer w' (g_obj base62 (drained o1)) k' None]) ->
+  let r := run2 (ext_ae W C SP) F f_saltpack_armorEncoderStream_Close [g_armor chars footer w (g_obj base62 o) k None] in
   let st := mkAe (firstn (go_nbuf o) (go_buf o)) chars k in
-  exists (e : option string) (w4 : wr) (calls : list bytes) (j : nat),
+  exists (e : option string) (o2 : gobj) (chars2 : bytes) (k2 : N) (w4 : wr) (calls : list bytes) (j : nat),
+    ga_close o chars k w None footer = (e, o2, chars2, k2, w4) /\
     fst r = ORet [g_werr e] /\
-    List.concat calls = ae_close st footer /\ run_calls calls w = (j, e, w4) /\
-    exists (chars2 : bytes) (k2 : N) (ev : gval), lookup "s" (snd r) = Some (g_armor chars2 footer w4 ev k2).
+    (* the returned error is stored in s.err *)
+    lookup "s" (snd r) = Some (g_armor chars2 footer w4 (g_obj base62 o2) k2 e) /\
+    List.concat calls = ae_close st footer /\ run_calls calls w = (j, e, w4).
 Proof.
   intros HF Hok Herr Hw HC HSP. cbv zeta.
   pose proof (ga_close_model o chars k w footer Hok Herr Hw) as HM. cbv zeta in HM.
-  unfold ga_close in HM.
+  unfold ga_close in HM |- *.
   pose proof (gw_close_model base62 128 ltac:(rewrite ibl62_nat; lia) ltac:(lia) o Hok Herr) as HE. cbv zeta in HE.
   rewrite Hw, run_calls_nofail in HE.
   destruct (gw_close base62 o) as [e1 o'].
@@ -604,14 +734,16 @@ Proof.
   specialize (HSP o'). cbv zeta in HSP.
   destruct (ga_space _ _ k w) as [[[er chars'] k'] w'].
   pose proof (go_armor_Close_glue W C SP chars footer w (g_obj base62 o) (g_obj base62 o') k None er
-                chars' footer w' (g_obj base62 (drained o')) k' F HF HC (fun _ => HSP)) as HG.
+                chars' footer w' (g_obj base62 (drained o')) k' None F HF HC (fun _ => HSP)) as HG.
   cbv zeta in HG.
   destruct er as [x|].
   - destruct HM as (calls & j & M1 & M2). destruct HG as [G1 G2].
-    exists (Some x), w', calls, j. split; [exact G1|]. split; [exact M1|]. split; [exact M2|]. eexists; eexists; eexists; exact G2.
+    exists (Some x), (drained o'), chars', k', w', calls, j.
+    split; [reflexivity|]. split; [exact G1|]. split; [exact G2|]. split; [exact M1|exact M2].
   - destruct (ga_close_tail chars' footer w' k') as [[e w4] k4].
     destruct HM as (calls & j & M1 & M2). destruct HG as [G1 G2].
-    exists e, w4, calls, j. split; [exact G1|]. split; [exact M1|]. split; [exact M2|]. eexists; eexists; eexists; exact G2.
+    exists e, (drained o'), chars', k4, w4, calls, j.
+    split; [reflexivity|]. split; [exact G1|]. split; [rewrite G2; destruct e; reflexivity|]. split; [exact M1|exact M2].
 Qed.
 End ArmorAliased.
 
